@@ -103,6 +103,62 @@ def install_models(state):
             return not present
         return present
 
+    # HashMap<&Yaml, V> keyed by example *documents* (equal documents are one key: the `same` relation)
+    @front(r'^HashMap::<&serde_yaml::Value, .*>::(new|with_capacity)$|^<HashMap<&serde_yaml::Value, .*> as Default>::default$')
+    def m_hm_new(ex, callee, args):
+        return Opaque('yamlmap', [])
+
+    def hm_slot(ex, hm, i):
+        for ent in hm.data:
+            if ex.branch(same(i, ent[0])):
+                return ent
+        return None
+
+    @front(r'^HashMap::<&serde_yaml::Value, .*>::(get|contains_key)(::<.*>)?$')
+    def m_hm_get(ex, callee, args):
+        hm = deref_all(args[0])
+        i = yaml_idx(args[1])
+        if i is None:
+            raise Unsupported('HashMap keyed by a non-example YAML value')
+        ent = hm_slot(ex, hm, i)
+        if '::contains_key' in callee:
+            return ent is not None
+        return some(Ref(ent[1], 0)) if ent is not None else none()
+
+    @front(r'^HashMap::<&serde_yaml::Value, .*>::insert$')
+    def m_hm_insert(ex, callee, args):
+        hm = deref_all(args[0])
+        i = yaml_idx(args[1])
+        if i is None:
+            raise Unsupported('HashMap keyed by a non-example YAML value')
+        ent = hm_slot(ex, hm, i)
+        if ent is not None:
+            old_ = ent[1].items[0]
+            ent[1].items[0] = args[2]
+            return some(old_)
+        hm.data.append((i, Cont([args[2]])))
+        return none()
+
+    @front(r'^HashMap::<&serde_yaml::Value, .*>::entry$')
+    def m_hm_entry(ex, callee, args):
+        hm = deref_all(args[0])
+        i = yaml_idx(args[1])
+        if i is None:
+            raise Unsupported('HashMap keyed by a non-example YAML value')
+        return Opaque('yamlentry', {'map': hm, 'i': i, 'slot': hm_slot(ex, hm, i)})
+
+    @front(r'^(std::collections::)?hash_map::Entry::<.*&serde_yaml::Value, .*>::(or_insert_with|or_insert|or_default)(::<.*>)?$|^Entry::<.*&serde_yaml::Value, .*>::(or_insert_with|or_insert)(::<.*>)?$')
+    def m_hm_or_insert(ex, callee, args):
+        e = args[0]
+        if not (isinstance(e, Opaque) and e.kind == 'yamlentry'):
+            raise Unsupported('Entry of %r' % (e,))
+        slot = e.data['slot']
+        if slot is None:
+            v = ex.call_closure(args[1], []) if 'or_insert_with' in callee else args[1]
+            slot = (e.data['i'], Cont([v]))
+            e.data['map'].data.append(slot)
+        return Ref(slot[1], 0)
+
     @front(r'^core::slice::<impl \[&*serde_yaml::Value\]>::contains$|^Vec::<&*serde_yaml::Value>::contains$')
     def m_slice_contains(ex, callee, args):
         from mirsym.models_std import vec_of
@@ -141,11 +197,14 @@ def run_unit(ck, unit):
              'matches': [z3.Bool('matches%d' % i) for i in range(total)],
              # the empty mapping is a legitimate example (a rule can match it); it is one document
              'is_empty': [z3.Bool('is_empty%d' % i) for i in range(total)],
+             # a non-matching example evaluates to false or to missing (replayed with a wrong value / an absent field)
+             'missing': [z3.Bool('missing%d' % i) for i in range(total)],
              'same': {(i, j): z3.Bool('same%d_%d' % (i, j)) for i in range(total) for j in range(i + 1, total)}}
     # equal examples are the same document: same shape, same verdict (and equality is transitive)
     for i in range(total):
         uni.axioms.append(z3.Implies(state['is_empty'][i], state['is_mapping'][i]))
     for (i, j), sij in state['same'].items():
+        uni.axioms.append(z3.Implies(sij, state['missing'][i] == state['missing'][j]))
         uni.axioms.append(z3.Implies(sij, z3.And(state['is_mapping'][i] == state['is_mapping'][j], state['matches'][i] == state['matches'][j],
                                                  state['is_empty'][i] == state['is_empty'][j])))
         uni.axioms.append(z3.Implies(z3.And(state['is_empty'][i], state['is_empty'][j]), sij))
@@ -161,13 +220,22 @@ def run_unit(ck, unit):
             m = deref_all(args[1])
             if isinstance(m, Opaque) and m.kind == 'mapping':
                 return (state['matches'][m.data['i']],)
+        if callee == 'solve_expression' or callee.endswith('::solve_expression'):
+            # the three-valued result behind matches(): true iff it matches, otherwise false or missing
+            m = deref_all(args[2]) if len(args) > 2 else None
+            if isinstance(m, Opaque) and m.kind == 'mapping':
+                i = m.data['i']
+                disc = z3.If(state['matches'][i], z3.BitVecVal(0, 64), z3.If(state['missing'][i], z3.BitVecVal(2, 64), z3.BitVecVal(1, 64)))
+                return (SymEnum('SolverResult', disc, {}),)
         return None
     ex.call_hook = hook
     ex_vals = [Opaque('yaml', {'i': i}) for i in range(total)]
     fields = prog.structs.get('Rule')
     if fields != ['optimised', 'detection', 'true_positives', 'true_negatives']:
         raise Unsupported('Rule fields changed: %r' % (fields,))
-    rule = Adt('Rule', None, None, [False, Opaque('detection'), VecV(ex_vals[:p]), VecV(ex_vals[p:])])
+    dfields = prog.structs.get('Detection') or prog.structs.get('rule::Detection') or []
+    detection = Adt('Detection', None, None, [Opaque('detection.' + f) for f in dfields]) if dfields else Opaque('detection')
+    rule = Adt('Rule', None, None, [False, detection, VecV(ex_vals[:p]), VecV(ex_vals[p:])])
     f = prog.find_impl(None, 'Rule', 'validate')
     res = ex.explore(f, [Ref(Cont([rule]), 0)])
     for r in res:
@@ -199,7 +267,11 @@ def run_unit(ck, unit):
                 markers[i] = '{}'
                 return '- {}'
             extra = ('\n  pad: \'%s\'' % pad) if pad else ''
-            return (('- f: a\n  g: b\n  id: %d' % (1000 + rep)) if z3.is_true(model.eval(ma[i], model_completion=True)) else ('- f: b\n  g: b\n  id: %d' % (1000 + rep))) + extra
+            if z3.is_true(model.eval(ma[i], model_completion=True)):
+                return ('- f: a\n  g: b\n  id: %d' % (1000 + rep)) + extra
+            if z3.is_true(model.eval(state['missing'][i], model_completion=True)):
+                return ('- g: b\n  id: %d' % (1000 + rep)) + extra        # `f` absent: A is missing, so is `A and B`
+            return ('- f: b\n  g: b\n  id: %d' % (1000 + rep)) + extra
         tp = '\n'.join(ex_yaml(i) for i in range(p)) or '[]'
         tn = '\n'.join(ex_yaml(i) for i in range(p, total)) or '[]'
         # the empty mapping matches `not (not A or not B)` (every field missing, and not(missing) is false) and not `A and B`
